@@ -1,7 +1,7 @@
 """C17 - the constructor accepts exactly the documented hyper-parameter domain.
 
 ENUM engine: per hyper-parameter a value list {boundaries, interior, just outside (+-1 ulp / +-1), NaN}; ALL single
-deviations and ALL pairs of deviations from valid baselines are constructed on the real optimizer and compared with
+deviations and ALL pairs (thorough tier: all triples and quadruples too) of deviations from valid baselines are constructed on the real optimizer and compared with
 an acceptance table transcribed from the property statement.  Grafting configs and unsupported config types too.
 """
 from __future__ import annotations
@@ -13,10 +13,10 @@ import math
 from .. import common
 
 ID = "C17"
-TECHNIQUE = "bounded-exhaustive enumeration of all 1- and 2-deviations from valid baselines over boundary/interior/just-outside/NaN values per hyper-parameter on the real constructor vs an acceptance table transcribed from the statement"
+TECHNIQUE = "bounded-exhaustive enumeration of all 1- and 2-deviations (thorough: up to 4 simultaneous deviations) from valid baselines over boundary/interior/just-outside/NaN values per hyper-parameter on the real constructor vs an acceptance table transcribed from the statement"
 RULE = (
     "value lists per hyper-parameter (lr, beta1, beta2, beta3, epsilon, momentum, dampening, weight_decay, max_preconditioner_dim, precondition_frequency, start_preconditioning_step, "
-    "inv_root_override, ignored_dims) with boundary, interior, +-1ulp outside, NaN; all single and pairwise deviations from 3 baselines; grafting epsilon/beta2 grids; unsupported config subclasses. "
+    "inv_root_override, ignored_dims) with boundary, interior, +-1ulp outside, NaN; all single and pairwise deviations (thorough: all combinations of up to 4 deviating hyper-parameters) from 2 (quick) / 3 (thorough) baselines; grafting epsilon/beta2 grids; unsupported config subclasses. "
     "state = the kwargs tuple; non-trivial = combination containing at least one out-of-domain value"
 )
 ASSUMPTIONS = ["the acceptance table is a transcription of the property statement", "values are Python floats/ints (no tensors, no bools)"]
@@ -52,7 +52,7 @@ BASELINES = [
 
 
 def bounds(tier):
-    return {"deviations": 2, "baselines": len(BASELINES) if tier == "thorough" else 2}
+    return {"deviations": 4 if tier == "thorough" else 2, "baselines": len(BASELINES) if tier == "thorough" else 2}
 
 
 def expected(k):
@@ -121,11 +121,11 @@ def check(torch, k):
     return []
 
 
-def enum_kwargs(bases):
+def enum_kwargs(bases, maxdev=2):
     keys = list(VALUES)
     for bi, base in enumerate(bases):
         yield dict(base)
-        for nd in (1, 2):
+        for nd in range(1, maxdev + 1):
             for ks in itertools.combinations(keys, nd):
                 for vals in itertools.product(*[[v for v in VALUES[k] if not same(v, base[k])] for k in ks]):
                     d = dict(base)
@@ -141,7 +141,7 @@ def same(a, b):
 
 def work(tier, seed):
     bases = BASELINES if tier == "thorough" else BASELINES[:2]
-    allk = list(enum_kwargs(bases))
+    allk = list(enum_kwargs(bases, 4 if tier == "thorough" else 2))
     units = [{"part": "ctor", "items": ch} for ch in common.chunks(allk, max(50, len(allk) // 64))]
     units.append({"part": "configs"})
     return units
